@@ -53,7 +53,14 @@ pub mod sched {
         for x in st.status.iter_mut() { if *x == 1 { *x = 0; } }   // a thread that ends may be what a parked thread waits for
         if !st.abort { pick(&mut st); }
         CV.notify_all();
+        drop(st);
+        *FINISHED.lock().unwrap() += 1; FCV.notify_all();
     }
+    // watchdog: a scheduled thread that blocks OUTSIDE the scheduler (in a blocking primitive the shims do not model) would stall
+    // every other thread for ever; the harness then stops with exit code 3, which the driver reports as undecided — never as a verdict
+    static FINISHED: Mutex<usize> = Mutex::new(0);
+    static FCV: Condvar = Condvar::new();
+    pub static STUCK_AFTER_S: std::sync::atomic::AtomicU64 = std::sync::atomic::AtomicU64::new(120);
     static SPAWNED: Mutex<Vec<std::thread::JoinHandle<()>>> = Mutex::new(Vec::new());
     /// a task started by the code under test (`task::spawn`): it becomes one more scheduled thread; returns its index.
     /// Outside `run` (while the harness builds the initial state) it simply runs to completion first.
@@ -70,9 +77,20 @@ pub mod sched {
     pub fn others_alive() -> usize { let me = ME.with(|m| m.get()); let st = ST.lock().unwrap(); (0..st.status.len()).filter(|i| *i != me && st.status[*i] != 2).count() }
     /// runs the programs under the schedule that follows `prefix` and then always takes the first runnable thread
     pub fn run(progs: Vec<Box<dyn FnOnce() + Send>>, prefix: &[usize]) -> Outcome {
+        *FINISHED.lock().unwrap() = 0;
         { let mut st = ST.lock().unwrap(); *st = St { active: true, current: usize::MAX, status: vec![0; progs.len()], prefix: prefix.to_vec(), trace: vec![], order: vec![], abort: false, panicked: vec![], last: usize::MAX, preemptions: 0 }; }
         let hs: Vec<_> = progs.into_iter().enumerate().map(|(i, p)| std::thread::spawn(move || worker(i, p))).collect();
         { let mut st = ST.lock().unwrap(); pick(&mut st); CV.notify_all(); }
+        loop {
+            let total = ST.lock().unwrap().status.len();
+            let g = FINISHED.lock().unwrap();
+            if *g >= total { break; }
+            let (g2, to) = FCV.wait_timeout(g, std::time::Duration::from_secs(STUCK_AFTER_S.load(std::sync::atomic::Ordering::Relaxed))).unwrap();
+            if to.timed_out() && *g2 < total {
+                eprintln!("HARNESS-STUCK: a scheduled thread blocked outside the controlled scheduler (a blocking primitive the shims do not model); no verdict");
+                std::process::exit(3);
+            }
+        }
         for h in hs { let _ = h.join(); }
         loop { let h = SPAWNED.lock().unwrap().pop(); match h { Some(h) => { let _ = h.join(); } None => break } }
         let mut st = ST.lock().unwrap();
